@@ -7,6 +7,13 @@ single alteration (and sampled / all pairs, plus directed same-width pairs) of t
 other well-formed values, runs the real `verify_all_tables` on each, and round-trips proofs
 through postcard and serde_json. The Lean driver `p3r_driver_c16` evaluates the model
 `P3R.Model.Metadata` (`verify`, `encodeMeta`/`decodeMeta`, AIR widths) on the same lines.
+
+Manifest leg (harness/src/c16_manifest.rs, lean/P3R/Model/Manifest.lean, Props/C16Manifest.lean): for every base
+proof the manifest a verifier writes for that circuit is derived; the real `VerifierManifest::matches` is called on
+the unaltered proof, on every single alteration of the proof, on every single alteration of the manifest (op types
+relabelled to every id the code base can name and to near-miss strings of the same family), on compensating and
+sampled pairs; the verdict is compared with `manifestMatches` (`manifest …` lines) and with an expectation computed
+on the JSON; whenever `matches` accepts something it should not, `verify_all_tables` is asked too (combined verdict).
 """
 import json, os
 
@@ -15,7 +22,9 @@ PROPERTY = "C16"
 CORRESPONDENCE = ("metadata handling of native verification (circuit-prover/src/batch_stark_prover.rs "
                   "BatchStarkProof::validate / verify_all_tables / verify, packing.rs TablePacking::validate, "
                   "the metadata-dependent checks of p3_batch_stark::verify_batch, postcard encoding of the proof's "
-                  "metadata, AIR widths of air/{const,public,alu}_air.rs) vs lean/P3R/Model/Metadata.lean")
+                  "metadata, AIR widths of air/{const,public,alu}_air.rs) vs lean/P3R/Model/Metadata.lean; "
+                  "circuit-prover/src/manifest.rs VerifierManifest::matches vs lean/P3R/Model/Manifest.lean manifestMatches "
+                  "(`manifest` lines: first failing comparison, with index)")
 
 PANIC_CLASS = "verifier-panic:declared-preprocessed-width-below-air-demand"
 DIFFSYS_CLASS = "different-constraint-system-reaches-stark-check"
@@ -26,7 +35,7 @@ def _read(p):
         return [l.rstrip("\n") for l in fh]
 
 
-CONFIGS = ["bb1", "bb4", "kb1", "kb8", "kb5q", "gl2", "kb4npo"]
+CONFIGS = ["bb1", "bb4", "kb1", "kb8", "kb5q", "gl2", "kb4npo", "kb4w32", "kb5qnpo"]
 
 
 def _part(ctx, out, rep_acc, violations, counters):
@@ -58,6 +67,15 @@ def _part(ctx, out, rep_acc, violations, counters):
                                            f"altered fields={d.get('fields')}",
                                    "replay": {"case_line": (cases[k] if k < len(cases) else "")[:4000], "altered": d.get("fields"),
                                               "model_verdict": b_full, "replay": d.get("replay")}})
+            # manifest leg: `matches` = Ok where the model (proved exact: manifest_matches_iff) names the comparison that fails
+            if a == "matches ok" and b and b.startswith("matches err:") and counters.get("manifest_accept", 0) < 3:
+                counters["manifest_accept"] = counters.get("manifest_accept", 0) + 1
+                d = detail.get(k, {})
+                violations.append({"class": "manifest-accepts-contradicting-metadata:" + b.split("err:")[1].split("@")[0],
+                                   "what": f"VerifierManifest::matches returns Ok for a proof whose declared metadata contradicts the manifest "
+                                           f"(model: {b}); altered fields={d.get('fields')}",
+                                   "replay": {"case_line": (cases[k] if k < len(cases) else "")[:4000], "altered": d.get("fields"),
+                                              "model_verdict": b_full, "replay": d.get("replay")}})
             if counters["disagreements"] <= 3:
                 d = detail.get(k, {})
                 violations.append({"class": "model-disagreement",
@@ -67,6 +85,10 @@ def _part(ctx, out, rep_acc, violations, counters):
                                               "first_difference": [a, b_full], "replay": d.get("replay")},
                                    "no_input": True})
             continue
+        if a is not None and a.startswith("matches "):
+            counters["manifest_lines"] = counters.get("manifest_lines", 0) + 1
+            mk = a.split("@")[0]
+            counters["manifest_hist"][mk] = counters["manifest_hist"].get(mk, 0) + 1
         if extra:
             key = f"{b} {extra}"
             counters["stage"][key] = counters["stage"].get(key, 0) + 1
@@ -141,7 +163,7 @@ def run(ctx):
             jobs.append((f"{work}/run_{cfg}", cmd))
     procs = [(out, cmd, subprocess.Popen(cmd, stdout=subprocess.PIPE, stderr=subprocess.STDOUT)) for out, cmd in jobs]
     rep_acc = {"evaluations": 0, "distinct": 0, "lines": 0, "serde_checks": 0, "samples": [], "corpus": [], "hist": {}}
-    counters = {"disagreements": 0, "diffsys": 0, "panics": 0, "same_width_rejected_structurally": 0, "stage": {}}
+    counters = {"disagreements": 0, "diffsys": 0, "panics": 0, "same_width_rejected_structurally": 0, "stage": {}, "manifest_hist": {}}
     for out, cmd, p in procs:
         so, _ = p.communicate(timeout=7200)
         if p.returncode != 0 or not os.path.exists(f"{out}/c16.report.json"):
@@ -149,6 +171,18 @@ def run(ctx):
                                "replay": {"cmd": cmd}, "no_input": True})
             continue
         _part(ctx, out, rep_acc, violations, counters)
+    # one representative per class first (concrete inputs before pure model disagreements), at most 3 per class:
+    # bin/check prints the first five violations, which should show five different classes when there are that many
+    seen, first, rest = {}, [], []
+    for v in violations:
+        n = seen.get(v["class"], 0)
+        seen[v["class"]] = n + 1
+        if n == 0:
+            first.append(v)
+        elif n < 3:
+            rest.append(v)
+    first.sort(key=lambda v: (bool(v.get("no_input")), not v["class"].startswith("table-set-contradiction-accepted-end-to-end")))
+    violations = first + rest
     if rep_acc["lines"] == 0:
         return violations, empty
     disagreements, diffsys, panics = counters["disagreements"], counters["diffsys"], counters["panics"]
@@ -156,21 +190,32 @@ def run(ctx):
     rep = {"hist": rep_acc["hist"], "evaluations": rep_acc["evaluations"], "distinct": rep_acc["distinct"], "samples": rep_acc["samples"],
            "serde_checks": rep_acc["serde_checks"], "corpus_witnesses_reproduced": rep_acc["corpus"]}
     impl = [None] * rep_acc["lines"]
-    hist = {k: v for k, v in rep["hist"].items() if not k.startswith("field.")}
+    hist = {k: v for k, v in rep["hist"].items() if not k.startswith("field.") and not k.startswith("manifest.")}
+    man_hist = {k[9:]: v for k, v in rep["hist"].items() if k.startswith("manifest.")}
     field_hist = {k[6:]: v for k, v in rep["hist"].items() if k.startswith("field.") and v > 0 and "+" not in k}
     cov = {"evaluations": rep["evaluations"], "distinct_nontrivial": rep["distinct"],
            "rule": "real BatchStarkProofs (release prover) of honest and of forged traces (ALU output / operand cell, public value) of random "
-                   "arithmetic circuits in 7 configurations (BabyBear D=1, D=4; KoalaBear D=1, D=8, quintic D=5, D=4 with Poseidon2 + recompose "
-                   "tables; Goldilocks D=2) x packings (lanes 1..3, K 2..5, min height 1..8); every single alteration of ext_degree, w_binomial, "
+                   "arithmetic circuits in 9 configurations (BabyBear D=1, D=4; KoalaBear D=1, D=8, quintic D=5, D=4 with Poseidon2 W16 + recompose "
+                   "tables, D=4 with Poseidon2 W32 + recompose (W16 prover registered too), quintic D=5 with base-field Poseidon2 D1 W16 + "
+                   "recompose + recompose/coeff (D4 W16 prover registered too); Goldilocks D=2) x packings (lanes 1..3, K 2..5, min height 1..8); every single alteration of ext_degree, w_binomial, "
                    "quintic flag, alu_variant, each packing field incl. npo_lanes, each row count, table list (drop / duplicate / swap / retag / "
                    "append), per-entry rows / lanes / variant / public values, stark_common (absent, commitment, instance None, width, degree_bits, "
                    "matrix_index, instances length, matrix_to_instance) to other well-formed values incl. ones validate() rejects; pairs on distinct "
                    "fields (quick: 60 sampled per proof; thorough: all pairs for one honest + its invalid proofs per configuration, 400 sampled for "
                    "the others) + every ALU (lanes,K) with the same main width; each altered proof is "
                    "deserialized into the real type and verified by the real verify_all_tables under catch_unwind; distinct = distinct "
-                   "(proof, altered metadata) pairs; every base and 3 altered proofs per base are round-tripped through postcard and serde_json",
+                   "(proof, altered metadata) pairs; every base and 3 altered proofs per base are round-tripped through postcard and serde_json; "
+                   "table retags go to every registered op type, every Poseidon1/Poseidon2 configuration id, both recompose ids and near-miss strings "
+                   "of the entry's own family; MANIFEST LEG: per base the derived VerifierManifest, real `matches` on the unaltered proof, on every "
+                   "single alteration of the proof, on every single alteration of the manifest (degree, reduction kind / w, ALU variant, per-entry op "
+                   "type to all those ids, variant, public-value length, drop / duplicate / swap / append), compensating pairs (same relabel on both "
+                   "sides) and sampled pairs; expected answer computed on the JSON (whole-string op types); `matches`=Ok on a contradicting proof is "
+                   "followed by verify_all_tables (combined verdict)",
            "samples": rep["samples"][:6], "input_distribution": hist, "per_field_outcomes_single": field_hist,
            "model_stage_histogram": stage_hist,
+           "manifest_leg_lines_compared_with_model": counters.get("manifest_lines", 0),
+           "manifest_leg_outcomes": counters["manifest_hist"],
+           "manifest_leg_per_config": man_hist,
            "serde_round_trip_checks": rep.get("serde_checks", 0),
            "verifier_panics": panics,
            "different_system_reaching_stark_check": diffsys,
@@ -182,7 +227,7 @@ def run(ctx):
 
 
 CHECK = {
-    "lean_modules": ["P3R.Props.C16", "P3R.Witness.C16"],
+    "lean_modules": ["P3R.Props.C16", "P3R.Witness.C16", "P3R.Props.C16Manifest", "P3R.Witness.C16Manifest"],
     "lean_exes": ["p3r_driver_c16"],
     "theorems": [
         "P3R.C16.field_params_bound", "P3R.C16.reduction_verifier_chosen", "P3R.C16.missing_w_unreachable",
@@ -191,6 +236,12 @@ CHECK = {
         "P3R.C16.airs_determined", "P3R.C16.verify_never_panics",
         "P3R.C16.no_accept_flip", "P3R.C16.serde_roundtrip",
         "P3R.Witness.C16.same_main_width_now_rejected", "P3R.Witness.C16.underdeclared_width_rejected",
+        "P3R.C16.manifest_matches_iff", "P3R.C16.manifest_ok_pointwise", "P3R.C16.manifest_matches_self",
+        "P3R.C16.manifest_npoOp_at", "P3R.C16.manifest_npoVariant_at", "P3R.C16.manifest_npoPvLen_at",
+        "P3R.C16.manifest_op_relabel_rejected", "P3R.C16.manifest_expected_relabel_rejected",
+        "P3R.C16.manifest_insensitive", "P3R.C16.manifest_verify_table_set",
+        "P3R.Witness.C16Manifest.honest_matches", "P3R.Witness.C16Manifest.same_family_relabel_rejected",
+        "P3R.Witness.C16Manifest.recompose_coeff_not_recompose", "P3R.Witness.C16Manifest.other_config_manifest_rejects",
     ],
     "run": run,
     "trusted_base": [
@@ -198,7 +249,7 @@ CHECK = {
         "`crypto : Sys -> Bool` of the model; theorems hold for every such function; the driver instantiates the ideal one (a proof body "
         "verifies against exactly the system it was produced for)",
         "plug-in AIRs (Poseidon permutation tables, recompose table) are parameters of the model: widths are read off the honest proof "
-        "(Poseidon) or are lanes x (D, 2) (recompose); their constraints are not modelled here (C11)",
+        "(Poseidon) or are lanes x (D, 2) (recompose) / lanes x (D, 2 + 2D) (recompose/coeff); their constraints are not modelled here (C11)",
         "postcard varint layer: the model encodes to tokens (one varint each); the harness varint-decodes the real bytes",
     ],
     "assumptions": [
@@ -231,7 +282,10 @@ MANIFEST_ENTRY = {
         "text": "accepted => field parameters are the verifier's, reduction is verifier-chosen, every table is registered and in entry order; "
                 "rows / min height / alu_variant / npo_lanes / entry rows / entry variant cannot influence the verdict; (lanes, K) are "
                 "determined by (main, preprocessed) widths; for a fixed proof body at most one AIR list passes the checks (declared "
-                "preprocessed widths are enforced to be exact); the verifier never panics on metadata; decode(encode m) = m; model "
+                "preprocessed widths are enforced to be exact); the verifier never panics on metadata; decode(encode m) = m; "
+                "VerifierManifest::matches = Ok iff degree / w / quintic flag / ALU variant are the expected ones and the proof's list of "
+                "(op type string, variant, #public values) IS the manifest's list; matches ∧ verify accept => the AIR list verified is the "
+                "manifest's table list through the registered plug-ins; model "
                 "tied to the Rust by line-exact verdict comparison (a panic of the real verifier is a disagreement and a violation), real "
                 "postcard bytes and real AIR widths",
         "design_ref": "4/C16",
